@@ -137,6 +137,8 @@ class VInterp(sym.Interp):
         t = n.get("ty", "")
         if t in ("usize", "u32", "u64", "i32", "i64", "u8") and hasattr(v, "is_number") and v.is_number and not v.is_Integer:
             return sp.Integer(int(v))    # `as usize` truncates
+        if t == "f32" and getattr(v, "is_Rational", False):
+            return sym.round_to_f32(v)
         return v
 
     def ev_Bin(self, n):
@@ -409,6 +411,8 @@ class VInterp(sym.Interp):
                 return a + sp.I * b if b != 0 else a
             if last in sym.FROM_PRIM and ("FromPrimitive" in d or "num_traits" in d):
                 v = self.ev(n["args"][0])
+                if last == "from_f32" and getattr(v, "is_Rational", False):
+                    v = sym.round_to_f32(v)
                 return sym.Variant("Some", [v])
             if d.startswith("std::any::TypeId"):
                 return sym.Opaque("typeid:" + (n["f"].get("gargs") or ["?"])[0])
